@@ -622,14 +622,49 @@ def apply_edit(rng, spec, kind, memory):
     return None
 
 
-def gen_history(rng, spec, nphase=None):
-    """Return a list of phases; each phase is {"edits": [...], "spec": spec after the edits}."""
+BREAK_ITEM = ["raw", {"a": "fail", "rc": 3}]
+
+
+def break_plan(rng, spec, memory):
+    """Make one plan fail at a random position (what comes after it stays detached in that build
+    and nothing is cleaned up); repaired in the next phase."""
+    if memory.get("broken") is not None:
+        return None
+    wd = rng.choice(sorted(spec["plans"]))
+    items = spec["plans"][wd]
+    pos = rng.randint(0, len(items))
+    items.insert(pos, copy.deepcopy(BREAK_ITEM))
+    memory["broken"] = wd
+    return f"plan {wd} fails at item {pos}"
+
+
+def repair_plan(spec, memory):
+    wd = memory.pop("broken", None)
+    if wd is None or wd not in spec["plans"]:
+        return None
+    spec["plans"][wd] = [it for it in spec["plans"][wd] if it != BREAK_ITEM]
+    return f"plan {wd} repaired"
+
+
+def gen_history(rng, spec, nphase=None, breaks=0.0):
+    """Return a list of phases; each phase is {"edits": [...], "spec": spec after the edits}.
+
+    breaks: probability per phase (except the last) that a plan is broken so that its build fails;
+    the next phase repairs it, together with its other edits."""
     nphase = nphase or rng.randint(1, 4)
     memory = {}
     cur = copy.deepcopy(spec)
     phases = []
-    for _ in range(nphase):
+    for k_phase in range(nphase):
         edits = []
+        if breaks:
+            desc = repair_plan(cur, memory)
+            if desc is not None:
+                edits.append(["repair_plan", desc])
+            elif k_phase < nphase - 1 and rng.random() < breaks:
+                desc = break_plan(rng, cur, memory)
+                if desc is not None:
+                    edits.append(["break_plan", desc])
         for _k in range(rng.choice([1, 1, 2, 3])):
             kind = rng.choice(EDIT_KINDS)
             if memory.get("dropped") or memory.get("dropped_def"):
